@@ -63,6 +63,7 @@ def explanatory(e):
 
 rng = np.random.RandomState(3)
 for cname, cfg in CONFIGS.items():
+  jax.clear_caches()
   for tname, tshapes in TREES.items():
     cases += 1
     kw = dict(learning_rate=0.1, block_size=4)
@@ -73,7 +74,7 @@ for cname, cfg in CONFIGS.items():
       st0 = opt.init(params)
       st = st0
       for _ in range(2):
-        g = {k: jnp.asarray(rng.randn(*s).astype(np.float32)) for k, s in tshapes.items()}
+        g = {k: jnp.asarray(np.asarray(rng.randn(*s), np.float32)) for k, s in tshapes.items()}
         u, st = opt.update(g, st, params)
         if sig(u) != sig(params):
           add("distributed_shampoo.update", [cname, tname], f"update layout {sig(u)[1]} != parameters {sig(params)[1]}")
@@ -115,7 +116,7 @@ for cname in ("default", "int8-momenta", "reuse", "fd"):
       if len(lp) != len(la):
         add("sharded_init_partition_spec_fn", [cname, tname], f"{len(la)} array leaves but {len(lp)} partition specs")
       with mesh:
-        g = {k: jnp.asarray(rng.randn(*s).astype(np.float32)) for k, s in tshapes.items()}
+        g = {k: jnp.asarray(np.asarray(rng.randn(*s), np.float32)) for k, s in tshapes.items()}
         u, st1 = jax.jit(opt.update)(g, actual, params)
       if sig(st1) != sig(actual):
         add("sharded_update_fn", [cname, tname], "sharded state layout changed after an update")
